@@ -709,7 +709,7 @@ var atomic32 = []*instructionType{
 			}
 		},
 	}, {
-		name:         "amoadd.W",
+		name:         "amoadd.w",
 		opcode:       opcodeAtomic(0, 0b010, 0b0101111),
 		inputRegCnt:  2,
 		hasOutputReg: true,
